@@ -104,7 +104,7 @@ set_option maxHeartbeats 1000000 in
 theorem joint_agree (cfg : TagCfg) (evs : List TbEv) :
     ∀ (sim : Sim) (s : State) (tk : TkState) (seen : Bool), JRel cfgStd sim s tk seen →
       (∀ ev ∈ evs, ev.Ok cfg) → (∀ ev ∈ evs, HtmlNoTemplate ev.tok) → NoFramesetAfterSelect seen (evs.map (·.tok)) →
-      ∀ p ∈ joint cfg cfgStd sim s tk evs, p.1 = p.2 := by
+      ∀ p ∈ joint cfg cfgStd sim s tk evs, p.2.1 = p.2.2 ∧ p.2.1 = expSw cfgStd p.1 := by
   induction evs with
   | nil => intro sim s tk seen _ _ _ _ p hp; cases hp
   | cons ev evs ih =>
@@ -178,7 +178,7 @@ theorem joint_agree (cfg : TagCfg) (evs : List TbEv) :
             exact ((hpost.swAct n sc a rfl hnone hb (by have := (show rank s.mode ≤ 7 by cases s.mode <;> simp [rank]); omega)).1).symm
         simp only [List.mem_cons] at hp
         rcases hp with rfl | hp
-        · exact hsw
+        · exact ⟨hsw, hag.tta⟩
         · -- the rest of the run
           refine ih _ _ _ (seen || (match ev.tok with | .start .select _ _ => true | _ => false)) ?_ hok' hcls' hfs2 p hp
           refine ⟨⟨hJ.simOk.stack, hJ.simOk.cur, hJ.simOk.strict⟩, hpost.inv, hpost.ns hJ.ns, ?_, ?_⟩
@@ -205,7 +205,7 @@ theorem joint_agree (cfg : TagCfg) (evs : List TbEv) :
       have hsw : (step cfgStd s (.end n)).sw = .none := hpost.swOther (fun _ _ _ h => by cases h)
       simp only [List.mem_cons] at hp
       rcases hp with rfl | hp
-      · simp [switchOfFeedback, hsw]
+      · simp [switchOfFeedback, hsw, expSw]
       · refine ih _ _ _ (seen || (match ev.tok with | .start .select _ _ => true | _ => false)) ?_ hok' hcls' hfs2 p hp
         refine ⟨⟨hJ.simOk.stack, hJ.simOk.cur, hJ.simOk.strict⟩, hpost.inv, hpost.ns hJ.ns, ?_, fun h => by simp [hJ.seen (e2 h)]⟩
         unfold TkRel
@@ -225,7 +225,7 @@ theorem joint_agree (cfg : TagCfg) (evs : List TbEv) :
       have hsw : (step cfgStd s (.char cc)).sw = .none := hpost.swOther (fun _ _ _ h => by cases h)
       simp only [List.mem_cons] at hp
       rcases hp with rfl | hp
-      · simp [switchOfFeedback, hsw]
+      · simp [switchOfFeedback, hsw, expSw]
       · refine ih _ _ _ (seen || (match ev.tok with | .start .select _ _ => true | _ => false)) ?_ hok' hcls' hfs2 p hp
         refine ⟨hJ.simOk, hpost.inv, hpost.ns hJ.ns, ?_, fun h => by simp [hJ.seen h]⟩
         unfold TkRel
@@ -240,7 +240,7 @@ theorem joint_agree (cfg : TagCfg) (evs : List TbEv) :
       have hsw : (step cfgStd s .comment).sw = .none := hpost.swOther (fun _ _ _ h => by cases h)
       simp only [List.mem_cons] at hp
       rcases hp with rfl | hp
-      · simp [switchOfFeedback, hsw]
+      · simp [switchOfFeedback, hsw, expSw]
       · refine ih _ _ _ (seen || (match ev.tok with | .start .select _ _ => true | _ => false)) ?_ hok' hcls' hfs2 p hp
         refine ⟨hJ.simOk, hpost.inv, hpost.ns hJ.ns, ?_, fun h => by simp [hJ.seen h]⟩
         unfold TkRel
@@ -255,7 +255,7 @@ theorem joint_agree (cfg : TagCfg) (evs : List TbEv) :
       have hsw : (step cfgStd s (.doctype d)).sw = .none := hpost.swOther (fun _ _ _ h => by cases h)
       simp only [List.mem_cons] at hp
       rcases hp with rfl | hp
-      · simp [switchOfFeedback, hsw]
+      · simp [switchOfFeedback, hsw, expSw]
       · refine ih _ _ _ (seen || (match ev.tok with | .start .select _ _ => true | _ => false)) ?_ hok' hcls' hfs2 p hp
         refine ⟨hJ.simOk, hpost.inv, hpost.ns hJ.ns, ?_, fun h => by simp [hJ.seen h]⟩
         unfold TkRel
@@ -267,7 +267,7 @@ theorem joint_agree (cfg : TagCfg) (evs : List TbEv) :
       have hsw : (step cfgStd s .eof).sw = .none := hpost.swOther (fun _ _ _ h => by cases h)
       simp only [List.mem_cons] at hp
       rcases hp with rfl | hp
-      · simp [switchOfFeedback, hsw]
+      · simp [switchOfFeedback, hsw, expSw]
       · refine ih _ _ _ (seen || (match ev.tok with | .start .select _ _ => true | _ => false)) ?_ hok' hcls' hfs2 p hp
         refine ⟨hJ.simOk, hpost.inv, hpost.ns hJ.ns, ?_, fun h => by simp [hJ.seen h]⟩
         unfold TkRel
